@@ -25,7 +25,7 @@ def main():
     demo_rs = os.path.join(d, "demo.rs")
     demo_py = os.path.join(d, "demo.py")
     dc = meta.get("demo_cmd", "") + " " + meta.get("configs", "")
-    feat = "--features macro_sep" if re.search(r"--features\s+macro_sep", meta.get("demo_cmd", "")) else ""
+    feat = "--features macro_sep" if re.search(r"cargo test[^&;|#(]*--features\s+macro_sep", meta.get("demo_cmd", "")) else ""
     rel = "--release" if "--release" in meta.get("demo_cmd", "") else ""
     if os.path.exists(demo_rs):
         def run_demo():
